@@ -321,14 +321,47 @@ func implStep(mp **orderedmap.Map[string, int], op string) (obs string) {
 	return "bad-op"
 }
 
+func showPrev(ps []omapPair) string { return "p:" + showPairs(ps) + "/" + strconv.Itoa(len(ps)) }
+
 func omapRunCase(ops []string) (impl string, verdict string) {
 	m := orderedmap.New[string, int]()
+	prev := orderedmap.New[string, int]() // receiver of the last Map/Filter (they return new maps)
 	ref := &refMap{}
+	refPrev := &refMap{}
 	implObs := make([]string, len(ops))
 	verdict = "ok"
 	for i, op := range ops {
-		implObs[i] = implStep(&m, op)
-		want := refStep(ref, op)
+		var want string
+		switch {
+		case op == "prev":
+			func() {
+				defer func() {
+					if rec := recover(); rec != nil {
+						implObs[i] = "panic"
+					}
+				}()
+				var ps []omapPair
+				prev.Iterate(func(k string, v int) { ps = append(ps, omapPair{k, v}) })
+				implObs[i] = "p:" + showPairs(ps) + "/" + strconv.Itoa(prev.Len())
+			}()
+			want = showPrev(refPrev.ps)
+		case op == "swap":
+			m, prev = prev, m
+			ref, refPrev = refPrev, ref
+			implObs[i], want = "u", "u"
+		default:
+			isDerive := strings.HasPrefix(op, "map:") || strings.HasPrefix(op, "filter:")
+			var oldM *orderedmap.Map[string, int]
+			if isDerive {
+				oldM = m
+				refPrev = &refMap{ps: append([]omapPair{}, ref.ps...)}
+			}
+			implObs[i] = implStep(&m, op)
+			if isDerive {
+				prev = oldM
+			}
+			want = refStep(ref, op)
+		}
 		if implObs[i] != want && verdict == "ok" {
 			verdict = fmt.Sprintf("FAIL op#%d %s impl=%s ref=%s", i, op, implObs[i], want)
 		}
@@ -338,7 +371,7 @@ func omapRunCase(ops []string) (impl string, verdict string) {
 
 var omapKeys = []string{"a", "b", "cc"}
 
-const omapFinalObs = "len;iter;values;marshal;has:a;has:b;has:cc;get:a;get:b;get:cc"
+const omapFinalObs = "len;iter;values;marshal;has:a;has:b;has:cc;get:a;get:b;get:cc;prev"
 
 func omapAlphabet() []string {
 	ops := []string{}
@@ -346,7 +379,7 @@ func omapAlphabet() []string {
 		ops = append(ops, "set:"+k+":1", "set:"+k+":2", "remove:"+k)
 	}
 	ops = append(ops, "filter:even", "filter:keyne:a", "map:klen", "sort:asc", "sort:desc", "sort:len",
-		"unmarshal:cc=4,a=6", "unmarshal:b=3,b=5", "at:1")
+		"unmarshal:cc=4,a=6", "unmarshal:b=3,b=5", "at:1", "swap")
 	return ops
 }
 
@@ -386,7 +419,7 @@ func omapRandomOp(r *rng) string {
 	case 16:
 		return fmt.Sprintf("at:%d", r.intn(5))
 	case 17:
-		return "values"
+		return pick(r, []string{"values", "swap", "swap", "prev"})
 	case 18:
 		return "marshal"
 	default:
@@ -423,7 +456,7 @@ func init() {
 			ops := []string{}
 			l := 1 + r.intn(length)
 			for j := 0; j < l; j++ {
-				ops = append(ops, omapRandomOp(r), "iter")
+				ops = append(ops, omapRandomOp(r), "iter", "prev")
 			}
 			ops = append(ops, strings.Split(omapFinalObs, ";")...)
 			omapEmit(out, ops)
